@@ -52,11 +52,15 @@ def run(ctx):
         x = [1] * p + [-1] * n + [0] * (N - p - n)
         ctx.rng.shuffle(x)
         seq = common.spell(x, ctx.rng)
-        out = common.call(lambda: lc.SP(seq).get_phasePlotRegion())
+        text = seq
+        if ctx.rng.random() < 0.2:
+            # normalisation is part of the API: lower case and whitespace do not count as residues
+            text = "".join((ctx.rng.choice([" ", "\n", "\t"]) if ctx.rng.random() < 0.15 else "") + (c.lower() if ctx.rng.random() < 0.5 else c) for c in seq) + ctx.rng.choice(["", "\n", "  "])
+        out = common.call(lambda: lc.SP(text).get_phasePlotRegion())
         ctx.evaluations += 1
         ctx.traces += 1
         if out[0] != "ok" or isinstance(out[1], bool) or not common.is_number(out[1]) or out[1] != rec["region"]:
-            ctx.violation("region", {"p": p, "n": n, "N": N, "seq": seq}, expected=rec["region"], actual=out)
+            ctx.violation("region", {"p": p, "n": n, "N": N, "seq": text}, expected=rec["region"], actual=out)
         ctx.nontrivial.add((p, n, N))
         byregion[rec["region"]] = byregion.get(rec["region"], 0) + 1
         if 20 * (p + n) == 7 * N and len(ctx.samples) < 3:
